@@ -244,8 +244,9 @@ fn schedule_body() {
             }
         }
         oblige!("C01.sched.dpor_clock_of_scheduled_thread_joins_the_dependent_access_and_ticks", vvk::eq(&n.dpor_vv, &want_dpor));
-        let want_st = if o.st == tv::StView::Yield && next != Some(i) { tv::StView::Runnable { unparked: false } } else { o.st };
+        let want_st = if o.st == tv::StView::Yield && next != Some(i) { tv::woken(&o) } else { o.st };
         oblige!("C18.sched.other_yielded_threads_are_reactivated_nobody_else_changes_state", n.st == want_st);
+        oblige!("C08.token_kept.schedule", tv::has_token(&n) == tv::has_token(&o));
         oblige!("C05.sched.frame_thread_views", vvk::eq(&n.causality, &o.causality) && vvk::eq(&n.released, &o.released) && n.op == o.op
             && n.yield_count == o.yield_count && n.last_yield == o.last_yield);
         i += 1;
